@@ -1,7 +1,6 @@
 package main
 
 import (
-	"bytes"
 	"encoding/binary"
 	"fmt"
 	"runtime"
@@ -44,6 +43,7 @@ type observation struct {
 	Log       []logEvent   `json:"log"`
 	Infra     string       `json:"infra,omitempty"`
 	Recovered bool         `json:"recovered"`
+	Attempts  int          `json:"recovery_attempts"`
 	Panics    []string     `json:"panics,omitempty"`
 	WallMs    int64        `json:"wall_ms"`
 }
@@ -149,17 +149,7 @@ func parseStream(data []byte) (frames [][]byte, tail []byte, bad string) {
 	return frames, nil, ""
 }
 
-func (sc *scen) arrived(frame []byte) bool {
-	for _, c := range sc.srv.snapshot() {
-		fs, _, _ := parseStream(c.data)
-		for _, f := range fs {
-			if bytes.Equal(f, frame) {
-				return true
-			}
-		}
-	}
-	return false
-}
+func (sc *scen) arrived(frame []byte) bool { return sc.srv.arrived(frame) }
 
 func (sc *scen) waitArrived(frame []byte, d time.Duration) bool {
 	deadline := time.Now().Add(d)
@@ -276,25 +266,38 @@ func runScenario(spec scenarioSpec) *observation {
 	r := root.Fork()
 	wait := 5 * time.Second
 	if spec.Mode == "queue" {
-		wait = 30 * time.Second
+		wait = 20 * time.Second
 	}
-	closerDeadline := time.Now().Add(120 * time.Second)
-	for k, seq := 0, 0; k < 6 && !obs.Recovered && time.Now().Before(closerDeadline); seq++ {
+	// Attempts continue until one pack has arrived; giving up needs at least 10 attempts spread over
+	// at least 20 s (a refusal period of the script may still be running: the attempts themselves are
+	// the connection failures it is waiting for), so a loaded machine cannot cause a false alarm.
+	closerStart := time.Now()
+	attempts := 0
+	for seq := 0; !obs.Recovered && seq < 400; seq++ {
+		if attempts >= 10 && time.Since(closerStart) > 20*time.Second && srv.scriptDone() {
+			break
+		}
+		if time.Since(closerStart) > 150*time.Second {
+			break
+		}
 		rec := sc.doSend(r, spec.Senders, seq, 0)
 		if rec.Class == "enqueue" {
 			// queue full: not an attempt, wait for room
 			time.Sleep(20 * time.Millisecond)
 			continue
 		}
+		attempts++
 		if rec.Class == "ok" {
-			if k == 5 {
-				wait = 2 * wait
-			}
 			obs.Recovered = sc.waitArrived(rec.frame, wait)
+		} else {
+			d := time.Duration(attempts) * 20 * time.Millisecond
+			if d > 500*time.Millisecond {
+				d = 500 * time.Millisecond
+			}
+			time.Sleep(d)
 		}
-		k++
 	}
-
+	obs.Attempts = attempts
 	// stop the background goroutine first (so that Close below is ordered after its last access)
 	sc.c.StopForVerif()
 	select {
